@@ -459,7 +459,8 @@ def single_pass_data_rule(ctx, rule):
     for q in ('write_multi', 'write_simple'):
         g = wr.func(q)
         loops = [norm(n.iter) for n in ast.walk(g) if isinstance(n, ast.For) and 'data' in {x.id for x in ast.walk(n.iter) if isinstance(x, ast.Name)}]
-        ctx.ob(rule, 'writer.%s:data-iterated-exactly-once' % q, len(loops) == 1 and loops[0] == 'enumerate(data)', str(loops), wr.loc(g))
+        # (with or without the running index)
+        ctx.ob(rule, 'writer.%s:data-iterated-exactly-once' % q, len(loops) == 1 and loops[0] in ('enumerate(data)', 'data'), str(loops), wr.loc(g))
 
 
 def index_normalisation_rule(ctx, rule):
